@@ -14,7 +14,7 @@ import json
 import random
 from typing import Any, Dict, Iterable, List, Optional
 
-from harness.core import Case, Check, Finding, err_name
+from harness.core import Case, Check, Finding, OUTSIDE, err_name
 from harness.props.c02 import World, Gen, cls_of, diff_dumps, model_dump, MAIN
 
 REGION_CLS = ('region', 'column', 'page', 'scan')
@@ -207,6 +207,13 @@ class TreeGen(Gen):
                          'columns': [], 'pages': pages}, 'scan', rs + ts + pages)
 
 
+def page_with_direct_lines(build: List[Dict[str, Any]]) -> bool:
+    """the quantifier: "pages built from columns, regions and extra regions" — a tree holding a page that owns lines
+    directly is not one of the documents the property speaks about (what its traversals answer, or whether they raise,
+    is not stated)"""
+    return any(o.get('op') == 'mkPage' and o.get('lines') for o in build)
+
+
 def gen_accs(rng: random.Random, g: Gen, root: int, n_accs: int) -> List[Dict[str, Any]]:
     below = [i for i in range(len(g.cls)) if g.below(i, root)]
     accs = []
@@ -328,7 +335,10 @@ class C04(Check):
                   '_area cache, for every accessor sequence, and returns the same answer after any such sequence '
                   '(C04_accessor_pure, C04_run_pure, C04_same_answer). The CONTENT of the JSON / XML views is not modelled here '
                   '(C06 / C07): their answers are compared for stability on the real code only; reading orders are excluded '
-                  '(C05); the depth bound 1000 of the abstraction function stands for CPython\'s recursion limit')
+                  '(C05); the depth bound 1000 of the abstraction function stands for CPython\'s recursion limit; '
+                  'correspondence: trees holding a page with direct lines are outside the quantifier ("pages built from '
+                  'columns, regions and extra regions") — mirrored, differences recorded only, not judged; an accessor that '
+                  'raises is compared as raising-or-not (no exception class is stated)')
     assumptions = [
         'trees are built without reading order (C05 covers the ordered traversal); sorted(page.columns) is a '
         'parameter of the model — the harness passes the order CPython returned and the theorems only use that it '
@@ -388,6 +398,14 @@ class C04(Check):
                 l = g.add({'op': 'mkLine', 'a': {'id': {'s': 'nc'}, 'text': 'a b'}, 'words': []}, 'line', [])
                 root = g.add({'op': 'mkRegion', 'a': {'id': {'s': 'r'}}, 'lines': [l], 'regions': [], 'tables': []}, 'region', [l])
             out.append(Case('tree', {'build': g.ops, 'accs': gen_accs(rng, g, root, rng.randint(3, 7))}, ['special', kind]))
+        # outside the quantifier ("pages built from columns, regions and extra regions"): pages with direct lines.  The
+        # model still mirrors today's behaviour (AttributeError from the page's traversals) and the harness still runs it,
+        # but a difference is recorded in the evidence only and the oracle does not judge these trees.  The other
+        # 'special' kinds (page-level tables, scans holding pages, region-level text, missing coordinates) are NOT
+        # excluded by the quantifier's wording and stay compared exactly.
+        for c in out:
+            if page_with_direct_lines(c.input['build']) and OUTSIDE not in c.tags:
+                c.tags.append(OUTSIDE)
         return out
 
     # ------------------------------------------------------------------ implementation
@@ -449,7 +467,9 @@ class C04(Check):
             else:
                 if 'stats' in mo:
                     mo['stats'] = {k: v for k, v in mo['stats']}
-                if ro != mo:
+                if 'raised' in ro and 'raised' in mo:
+                    pass    # the statement names no exception: an accessor that raises is compared as raising-or-not
+                elif ro != mo:
                     return f'step {i} {a}: impl={ro} model={mo}'
             d = diff_dumps(r['store'], model_dump(mm['store']))
             if d:
@@ -465,8 +485,8 @@ class C04(Check):
             if key not in seen:
                 seen.add(key)
                 fs.append(Finding(f'C04:{key}', what, case, None))
-        if 'err' in out:
-            return fs
+        if 'err' in out or page_with_direct_lines(case.input['build']):
+            return fs           # (a page owning lines: outside the quantifier, see cases())
         accs = case.input['accs']
         answers: Dict[Any, Any] = {}
         last: Dict[Any, Any] = {}
